@@ -264,7 +264,8 @@ def run_case(ctx, d):
     # --- relations between metric values (second-order predicates)
     extra = d.get("extra", [])
     if "rank" in extra:
-        phis = [("2x+1", lambda a: 2 * a + 1)]
+        # rank-preserving maps, including exact power-of-two rescalings to tiny / huge magnitudes (no threshold on |attribution|)
+        phis = [("2x+1", lambda a: 2 * a + 1), ("x*2^-30", lambda a: a * np.float32(2.0 ** -30)), ("x*2^20", lambda a: a * np.float32(2.0 ** 20))]
         if ce != chan or chan == 1:
             phis += [("x^3", lambda a: a ** 3), ("exp", lambda a: np.exp(a / 4).astype(np.float32))]
         for name, phi in phis:
